@@ -93,6 +93,17 @@ CLAIMS["C10"] = dict(level="other",
     note="Not a transition system: TLC enumerates the cases and evaluates the reference operators on the recorded round trips. Values are boundary tokens, not all bit patterns (TLC has no floats and 32-bit integers); "
          "Values.tla is a transcription of the IEEE 1815 object library made for this check; octet strings and frozen analog inputs are not covered; quick runs every value plan and a seeded half of the relative-time sequences.")
 
+CLAIMS["C01"] = dict(level="other",
+    text="State-complete, input-sampled exploration. Session states: every prefix position of the behaviours of the abstract-transition covers of Outstation.tla (event and control alphabets) and Master.tla "
+         "(TLC breadth-first under the CoverView abstraction) - idle, solicited / unsolicited confirm waits, mid series, mid task of each kind. Hostile input: the product space of Hostile.tla enumerated by TLC "
+         "(link-level noise, damaged / lying / truncated frames, transport garbage, application fragments of every function code incl. the other role's and undefined ones with every FIR/FIN/CON/UNS shape, object "
+         "headers from the AppCodec enumeration, maximum-size and end-of-range requests) x chunkings, with seeded bytes; decode level and link error mode cycled. After the stimulus a probe (link status request, fresh "
+         "READ / user request and its answer, on the same or - after a close - a new connection). Mon_C01 (TLC trace validation) rejects panics, watchdog hangs, ended tasks, unanswered probes and sessions closed in "
+         "discard mode.",
+    ref="§7 C01", technique="TLA+ specifications as generators (state cover by TLC, hostile class product by TLC) + trace validation of executions on the real endpoints",
+    note="TLC says nothing about byte strings it never names: the bytes of a stimulus class are seeded random draws (exhaustive:false). Trusted: the harness (pipes, paused clock, watchdog). Not varied: rx buffer sizes other "
+         "than the defaults; the TCP / serial / TLS physical layers are replaced by an in-memory pipe.")
+
 def main():
     head = subprocess.run(["git", "-C", "/repo", "log", "--format=%h %s"], capture_output=True, text=True).stdout.splitlines()
     hooks = [l.split()[0] for l in head if "verif hooks" in l]
@@ -114,7 +125,7 @@ def main():
         })
     na = [{"property_id": p, "reason": NA.get(p, "check not built yet (work in progress)")} for p in PROPS if p not in CLAIMS]
     m = {"version": 1,
-         "setup_cmd": "cd /verif/harness && cargo build --offline 2>&1 | tail -2 && cd /verif/spec && for f in Trace_Outstation.tla TM_C03.tla TM_C04.tla TM_C06.tla TM_C07L.tla TM_C08.tla Trace_Link.tla TM_C05.tla TM_C07.tla TM_C11.tla TM_C12.tla TM_C13.tla TM_C14.tla Trace_Master.tla TM_C09.tla TM_C10.tla TM_C15.tla TM_C16.tla TM_C17.tla TM_C19.tla; do tla-sany $f > /dev/null || exit 1; done",
+         "setup_cmd": "cd /verif/harness && cargo build --offline 2>&1 | tail -2 && cd /verif/spec && for f in Trace_Outstation.tla TM_C03.tla TM_C04.tla TM_C06.tla TM_C07L.tla TM_C08.tla Trace_Link.tla TM_C05.tla TM_C07.tla TM_C11.tla TM_C12.tla TM_C13.tla TM_C14.tla Trace_Master.tla TM_C01.tla TM_C09.tla TM_C10.tla TM_C15.tla TM_C16.tla TM_C17.tla TM_C19.tla; do tla-sany $f > /dev/null || exit 1; done",
          "hooks": {"guard": "dnp3_verif",
                    "enable": "rustflags --cfg dnp3_verif in /verif/harness/.cargo/config.toml (the harness crate has a path dependency on /repo/dnp3, default-features off)",
                    "baseline_off_cmd": "cd /repo && cargo test --workspace --no-fail-fast --offline",
